@@ -98,6 +98,14 @@ type Leftover struct {
 	ID    string
 	State string // runtime truth
 	PodNS, PodName string
+	// PodStatus: "" = the pod does not exist; otherwise the container statuses kubelet reports for the pod
+	// ("terminated", "running", "waiting", "mixed" = one terminated and one running, "none" = no statuses yet)
+	PodStatus string
+}
+
+// LinkDef is a pre-existing network device of the host.
+type LinkDef struct {
+	Name, Type string
 }
 
 // Config is everything static about a run.
@@ -113,6 +121,8 @@ type Config struct {
 	ForeignPorts []string // "tcp/8080"
 	Leftovers   []Leftover
 	ScriptSeed  uint64
+	Links       []LinkDef
+	BadResultRate int // per mille: a successful plugin ADD prints a result galaxy cannot use (no / invalid IPv4), scripted like failures
 	AddFailRate int // per mille, scripted per (container, ifname, attempt)
 	DelFailRate int
 	EphLo, EphHi int
@@ -186,6 +196,9 @@ func genNetworks(c *core.Choices, cfg *Config) {
 	}
 	if c.Prob(1, 2) {
 		cfg.ENINet = cfg.Nets[c.Choose(len(cfg.Nets))].Name
+		if c.Prob(1, 10) {
+			cfg.ENINet = "ghost-eni" // the configured ENI network does not exist: pods that want an ENI IP cannot be set up
+		}
 	}
 }
 
@@ -327,6 +340,9 @@ func genPod(c *core.Choices, cfg *Config, idx int, withPorts bool) *PodDef {
 		}
 	} else if p.WantENI && cfg.ENINet != "" {
 		p.Expect = []ExpNet{{Net: cfg.ENINet, IfName: "eth0"}}
+		if cfg.net(cfg.ENINet) == nil {
+			p.ExpectFail = true
+		}
 	} else {
 		for i, n := range cfg.DefaultNets {
 			p.Expect = append(p.Expect, ExpNet{Net: n, IfName: fmt.Sprintf("eth%d", i)})
@@ -478,7 +494,23 @@ func genLeftovers(c *core.Choices, cfg *Config) {
 		if c.Prob(1, 5) {
 			lo.ID = lo.ID[:12]
 		}
+		lo.PodStatus = pick(c, []string{"", "", "terminated", "running", "waiting", "mixed", "none"})
 		cfg.Leftovers = append(cfg.Leftovers, lo)
+		if len(lo.ID) >= 9 {
+			// host side veth devices it left behind
+			if c.Prob(1, 2) {
+				cfg.Links = append(cfg.Links, LinkDef{"v-h" + lo.ID[:9], "veth"})
+			}
+			if c.Prob(1, 4) {
+				cfg.Links = append(cfg.Links, LinkDef{"v-h" + lo.ID[:9] + "-2", "veth"})
+			}
+			if c.Prob(1, 6) {
+				cfg.Links = append(cfg.Links, LinkDef{"v-h" + lo.ID[:9] + "-a-b", "veth"}) // three parts: not one of galaxy's names
+			}
+			if c.Prob(1, 6) {
+				cfg.Links = append(cfg.Links, LinkDef{"v-s" + lo.ID[:9], "veth"}) // another prefix
+			}
+		}
 		for j, d := range gcDirs {
 			if c.Prob(1, 2) {
 				data := `[{"NetworkType":"galaxy-flannel","Args":{},"Conf":{"type":"galaxy-flannel"},"IfName":"eth0"}]`
@@ -531,6 +563,12 @@ func genLeftovers(c *core.Choices, cfg *Config) {
 			cfg.Files = append(cfg.Files, FileDef{Path: gcDirs[1] + "/" + lo.ID, Data: `[]`})
 		}
 	}
+	// devices that are not host veths of containers
+	for _, l := range []LinkDef{{"v-hbridge0", "bridge"}, {"eth0", "device"}, {"docker0", "bridge"}, {"veth12ab34", "veth"}, {"v-hdeadbeef0", "veth"}, {"v-h", "veth"}, {"v-hcafe01234-x", "veth"}, {"v-htunl0", "ipip"}} {
+		if c.Prob(1, 3) {
+			cfg.Links = append(cfg.Links, l)
+		}
+	}
 	// non-container files
 	if c.Prob(1, 2) {
 		cfg.Files = append(cfg.Files, FileDef{Path: ipDirs[1] + "/last_reserved_ip.0", Data: "172.16.8.77"})
@@ -581,6 +619,12 @@ func genConfig(c *core.Choices, prop string) *Config {
 	if prop == "C12" {
 		cfg.AddFailRate = rates[c.Choose(len(rates))]
 		cfg.DelFailRate = rates[c.Choose(len(rates))]
+	}
+	switch prop {
+	case "C12":
+		cfg.BadResultRate = []int{0, 0, 0, 120}[c.Choose(4)]
+	case "C14", "C17", "C19":
+		cfg.BadResultRate = []int{0, 0, 80}[c.Choose(3)]
 	}
 	if prop == "C14" || prop == "C17" || prop == "C19" || prop == "C18" {
 		genPriorNAT(c, cfg)
